@@ -646,3 +646,8 @@ def ldu(load_v, name):
   rules_shared.check(model, rep, 'SHARED-MUT', rels)
   # ---------------------------------------------------------------- QN-SUPPORT
   rules_qn.support(model, rep, 'QN-SUPPORT')
+
+  # ---------------------------------------------------------------- dependencies
+  rep.depends('C07', ['LV-TRANSFER', 'LV-CLOSURE', 'LV-BLOCK'],
+              'nouts and the outputs-first order are computed from the LIVE_VARS_IN / '
+              'LIVE_VARS_OUT annotations of the statement')
